@@ -17,11 +17,11 @@ CHECKS = {
     "C09": ("3.C09", "Group laws of the four pose types proved for all operands against an independent matrix model (homomorphism, ominus definition, inverse, identity, associativity, point action, boxplus = oplus with Pose(delta), += ).", "PoseSE2.from_matrix outside (atan2)."),
     "C10": ("3.C10", "Each of the 12 public jacobian_* methods x 4 pose types proved to be the manifold derivative (dual numbers through the real boxplus) in the documented shape; *_compact = compact rows.", ""),
     "C11": ("3.C11", "SE(2) angle range and congruence mod 2pi for every constructing operation, SE(3) unit-norm preservation for every operation (inductive step), normalize() semantics: all proved for all operands in the real model.", "Accumulated rounding over long chains outside."),
-    "C04": ("3.C04", "Real R^2/R^3 odometry and landmark edges through the real optimize with the solver replaced by its contract H dx = rhs: for all initial guesses, measurements, offsets and symmetric information the returned poses are a stationary point of an independently written chi^2 and the reported chi^2 values are that chi^2 (bounded topologies).", "Convexity argument (SPD information, connected, >=1 fixed => stationary point is the unique minimiser) is mathematics outside the solver; sizes beyond the bound outside."),
+    "C04": ("3.C04", "Real R^2/R^3 odometry and landmark edges through the real optimize with the solver replaced by its contract H dx = rhs: for all initial guesses, measurements, offsets and symmetric information the returned poses are a stationary point of an independently written chi^2 and the reported chi^2 values are that chi^2 (bounded topologies).", "Convexity argument (SPD information, connected, >=1 fixed => stationary point is the unique minimiser) is mathematics outside the solver; sizes beyond the bound outside. Floating-point-only defects are invisible to the real-arithmetic encoding; the far-start cases add float64 validation runs (sampling, not a solver verdict) that start about 1e7 away."),
     "C08": ("3.C08", "Two-run relations proved for all values: block-permuted linear system and identical chi^2 under vertex/edge permutation and id relabelling (symbolic ids), 2*pi*m shifts (symbolic integer m), every quaternion sign pattern (landmark edges and block-diagonal information fully; odometry with full information is the recorded known finding), edge splitting and information scaling.", "The optimisation trajectory is not re-run: equal (permuted/scaled) linear systems plus C03 give equal updates; stopping decisions under scaling are not claimed (the eps in the relative decrease is not scale invariant)."),
-    "C13": ("3.C13", "Export followed by import proved field-by-field lossless for two cycles from an arbitrary loaded state (inductive), numbers travelling as tokens with a shortest-repr round-trip contract (any non-empty format spec = lossy); inexpressible content proved to raise; one known finding (programmatic SE(3) landmark edges).", "float()/format() round trip of the interpreter is trusted."),
-    "C14": ("3.C14", "Every vocabulary line parsed to exactly the numbers on it (independent field map) for all values and ids, in file order, with junk/blank lines, separators, CRLF, all six entry points; prefix dispatch of arbitrary strings (<=20 chars) confirmed over all paths by CrossHair with reachability twins.", "Lexical number forms are delegated to builtin float/int by contract."),
-    "C15": ("3.C15", "Every query / operator proved to leave every reachable numeric array, flag, id and order unchanged (termwise) from an arbitrary valid symbolic state, and to return identical results when repeated: one inductive step covering all interleavings; copies independent; optimize() changes only poses and vertices[0].fixed.", "Equality is on exact real terms; bit-level floating point is covered only where the restored object is identical."),
+    "C13": ("3.C13", "Export followed by import proved field-by-field lossless for two cycles from an arbitrary loaded state (inductive), numbers travelling as tokens with a shortest-repr round-trip contract (any non-empty format spec = lossy); inexpressible content proved to raise; one known finding (programmatic SE(3) landmark edges).", "float()/format() round trip of the interpreter is trusted; text edits of a formatted number yield an unknown value and are concretised by a witness search; the extreme-magnitude cases are float64 validation runs (sampling)."),
+    "C14": ("3.C14", "Every vocabulary line parsed to exactly the numbers on it (independent field map) for all values and ids, in file order, with junk/blank lines, separators, CRLF, all six entry points; prefix dispatch of arbitrary strings (<=20 chars) confirmed over all paths by CrossHair with reachability twins.", "Lexical number forms are delegated to builtin float/int by contract; overflow / underflow behaviour is exercised only by the float64 validation runs of the extreme-magnitude cases (sampling)."),
+    "C15": ("3.C15", "Every query / operator proved to leave every reachable numeric array, flag, id and order unchanged (termwise) from an arbitrary valid symbolic state, and to return identical results when repeated: one inductive step covering all interleavings; copies independent; optimize() changes only poses and vertices[0].fixed.", "Equality is on exact real terms; bit-level floating point is covered by the IEEE binary64 cases (bit-exact pose restoration, bit-identical repeated numerical Jacobians) on simple error functions only."),
     "C16": ("3.C16", "The real forward-difference fallback proved equal to the dual-number derivative for affine error functions and within an explicit eps*M2/2 bound for the quadratic/rotational ones, shapes and per-vertex order, pose restoration, and n-ary gradient/Hessian contributions, for 5 custom-edge families x 4 pose types.", "NOT decided: equality of optima with exact Jacobians over multi-iteration runs (same obstacle as C05); floating-point cancellation of the quotient."),
     "C17": ("3.C17", "equals of poses, vertices, edges and graphs proved total (never raises) on all ordered kind pairs, False on every structural mismatch for all values, equal to an independent closeness predicate on same-kind pairs, and correct in both directions outside the tolerance band for single-component perturbations.", "SE(3) band on a restricted shape; angle perturbations across the wrap outside."),
     "C18": ("3.C18", "Graph construction with symbolic ids (free edge ids: presence and binding decided by the solver) and symbolic information shape proved to accept exactly the edges satisfying the documented validity predicate, to bind by id, and to raise otherwise, over the enumerated type combinations.", "Information objects represented by their shape only."),
